@@ -15,6 +15,7 @@ import (
 	"github.com/q191201771/lal/pkg/avc"
 	"github.com/q191201771/lal/pkg/base"
 	"github.com/q191201771/lal/pkg/hevc"
+	"github.com/q191201771/lal/pkg/remux"
 	"github.com/q191201771/lal/pkg/sdp"
 
 	"lalverif/fw"
@@ -813,6 +814,103 @@ func c19Sdp(c *fw.Ctx, n int) {
 	}
 }
 
+// c19Remuxer: parameter sets fed to the AvPacket→RTMP remuxer in separate packets whose buffer
+// the caller reuses (the API contract: the payload is not held after the call returns); the
+// sequence header lal emits must carry the sets as they were fed.
+func c19Remuxer(c *fw.Ctx, n int) {
+	r := c.Rng
+	j := &c19Judge{c, "remuxer"}
+	for k := 0; k < n && !c.Violated(); k++ {
+		c.Sub(k)
+		hevcMode := k%2 == 1
+		separate := k%4 < 2
+		annexb := k%8 >= 4
+		var sets [][]byte
+		if hevcMode {
+			sps, _ := c19HevcSps(r)
+			sets = [][]byte{append([]byte(nil), gen.HevcVps...), sps, c19ParamSet(r, []byte{0x44, 0x01}, 4+r.Intn(40))}
+		} else {
+			sps, _ := c19AvcSps(r)
+			sets = [][]byte{sps, c19ParamSet(r, []byte{0x68}, 3+r.Intn(40))}
+		}
+		slice := c19ParamSet(r, []byte{0x65}, 30+r.Intn(100))
+		if hevcMode {
+			slice = c19ParamSet(r, []byte{0x26, 0x01}, 30+r.Intn(100))
+		}
+		c.Eval(1)
+		c.Cell("remuxer/hevc=%v/separate=%v/annexb=%v", hevcMode, separate, annexb)
+		var got [][]byte
+		rm := remux.NewAvPacket2RtmpRemuxer()
+		rm.WithOption(func(o *base.AvPacketStreamOption) {
+			if annexb {
+				o.VideoFormat = base.AvPacketStreamVideoFormatAnnexb
+			}
+		})
+		rm.WithOnRtmpMsg(func(msg base.RtmpMsg) {
+			if msg.Header.MsgTypeId == 9 && (msg.IsAvcKeySeqHeader() || msg.IsHevcKeySeqHeader()) {
+				got = append(got, append([]byte(nil), msg.Payload...))
+			}
+		})
+		pt := base.AvPacketPtAvc
+		if hevcMode {
+			pt = base.AvPacketPtHevc
+		}
+		frame := func(nals ...[]byte) []byte {
+			var b []byte
+			for _, x := range nals {
+				if annexb {
+					b = append(b, 0, 0, 0, 1)
+				} else {
+					b = append(b, byte(len(x)>>24), byte(len(x)>>16), byte(len(x)>>8), byte(len(x)))
+				}
+				b = append(b, x...)
+			}
+			return b
+		}
+		buf := make([]byte, 0, 70000) // the caller's one buffer, reused for every packet
+		feed := func(p []byte) {
+			buf = append(buf[:0], p...)
+			rm.FeedAvPacket(base.AvPacket{PayloadType: pt, Timestamp: 1000, Pts: 1000, Payload: buf})
+			for x := range buf {
+				buf[x] = 0xEE // the caller is free to scribble over its buffer afterwards
+			}
+		}
+		if separate {
+			for _, x := range sets {
+				feed(frame(x))
+			}
+			feed(frame(slice))
+		} else {
+			feed(frame(append(append([][]byte(nil), sets...), slice)...))
+		}
+		if len(got) == 0 {
+			j.bad("no-seq-header", "no video sequence header was emitted after the parameter sets and a key frame were fed (hevc=%v separate=%v annexb=%v)", hevcMode, separate, annexb)
+			return
+		}
+		var back [][]byte
+		var err error
+		if hevcMode {
+			var v, sp, pp []byte
+			v, sp, pp, err = hevc.ParseVpsSpsPpsFromSeqHeader(got[0])
+			back = [][]byte{v, sp, pp}
+		} else {
+			var sp, pp []byte
+			sp, pp, err = avc.ParseSpsPpsFromSeqHeader(got[0])
+			back = [][]byte{sp, pp}
+		}
+		if err != nil {
+			j.bad("seq-header-parse", "the emitted sequence header does not parse: %v", err)
+			return
+		}
+		for x := range sets {
+			if !bytes.Equal(back[x], sets[x]) {
+				j.bad("paramset-changed", "parameter set %d fed as %s came out of the sequence header as %s (hevc=%v, sets fed in separate packets=%v, annexb=%v, caller reuses its buffer)", x, hx(sets[x]), hx(back[x]), hevcMode, separate, annexb)
+				return
+			}
+		}
+	}
+}
+
 var (
 	c19SrvMu sync.Mutex
 	c19Srv   *srv.Server
@@ -908,7 +1006,7 @@ func init() {
 			return 16 * 7
 		},
 		CaseTimeout: func(string) time.Duration { return 5 * time.Minute },
-		Rule: "generated inputs through lal's real conversion functions, output compared with the input bytes: (1) AVC sequence header build → parse (both parsers) → Annex-B for SPS from a bit-exact H.264 SPS encoder model or arbitrary NAL-like byte strings of 4…65 535 bytes with emulation-prevention bytes, PPS up to 65 535 bytes; (2) HEVC classic and enhanced-RTMP sequence headers likewise (model SPS, real VPS, PPS up to 65 535 bytes); (3) NAL lists of 0–40 units (1 B…140 KB) AVCC → Annex-B → reference splitter, Annex-B with 3/4-byte start codes, leading and trailing zeros → IterateNaluAnnexb / Annexb2Avcc → reference splitter, IterateNaluAvcc, SplitNaluAvcc; (4) every 2-byte AudioSpecificConfig (object 1–31 × 13 indices × 0–7 channels): unpack/pack, RTMP sequence header, ADTS header for object 1–4 parsed by the reference ADTS reader and converted back; (5) sdp.Pack for H264/H265/none × AAC (13 rates)/PCMA/PCMU/Opus/none: lal's own LogicContext and the reference RFC 4566/6184/7798/3640 reader must both return the packed codec, payload type, clock, control and parameter sets; (6) picture dimensions: an SPS from the H.264 model (13 high + 3 plain profiles, chroma formats 0–3 with separate colour planes, scaling lists, POC types 0/1/2 with small and 30-bit offsets, frame/field coding, cropping in all four directions, VUI with timing) or the H.265 model (chroma formats, conformance window) is fed as a sequence header through the customize-publisher API of a running server and the stat's video_width/height must equal the model's ground truth. Acceptable outcomes for (1)–(3): byte-exact or an explicit error. cell = group (× codec pair / profile class).",
+		Rule: "generated inputs through lal's real conversion functions, output compared with the input bytes: (1) AVC sequence header build → parse (both parsers) → Annex-B for SPS from a bit-exact H.264 SPS encoder model or arbitrary NAL-like byte strings of 4…65 535 bytes with emulation-prevention bytes, PPS up to 65 535 bytes; (2) HEVC classic and enhanced-RTMP sequence headers likewise (model SPS, real VPS, PPS up to 65 535 bytes); (3) NAL lists of 0–40 units (1 B…140 KB) AVCC → Annex-B → reference splitter, Annex-B with 3/4-byte start codes, leading and trailing zeros → IterateNaluAnnexb / Annexb2Avcc → reference splitter, IterateNaluAvcc, SplitNaluAvcc; (4) every 2-byte AudioSpecificConfig (object 1–31 × 13 indices × 0–7 channels): unpack/pack, RTMP sequence header, ADTS header for object 1–4 parsed by the reference ADTS reader and converted back; (5) sdp.Pack for H264/H265/none × AAC (13 rates)/PCMA/PCMU/Opus/none: lal's own LogicContext and the reference RFC 4566/6184/7798/3640 reader must both return the packed codec, payload type, clock, control and parameter sets; (6) the AvPacket→RTMP remuxer fed with parameter sets in one packet or in separate packets (AVCC and Annex-B) from a buffer the caller reuses and overwrites: the emitted sequence header must carry the sets as fed; (7) picture dimensions: an SPS from the H.264 model (13 high + 3 plain profiles, chroma formats 0–3 with separate colour planes, scaling lists, POC types 0/1/2 with small and 30-bit offsets, frame/field coding, cropping in all four directions, VUI with timing) or the H.265 model (chroma formats, conformance window) is fed as a sequence header through the customize-publisher API of a running server and the stat's video_width/height must equal the model's ground truth. Acceptable outcomes for (1)–(3): byte-exact or an explicit error. cell = group (× codec pair / profile class).",
 		Assumptions: []string{"parameter-set byte strings contain no start-code emulation (zero runs are broken by emulation-prevention bytes), as in any conforming stream"},
 		MinCells: 6,
 		Run: func(c *fw.Ctx, i int) {
@@ -926,6 +1024,8 @@ func init() {
 			case 3:
 				if i < 7 {
 					c19Aac(c)
+				} else if i%14 == 3 {
+					c19Remuxer(c, n)
 				} else {
 					c19Sdp(c, n)
 				}
